@@ -29,8 +29,11 @@ import Martian.TypingPipeline
 namespace Martian.Typing
 open Martian.Json Martian.Types
 
-/-- `lookup.GetArray(dest, -1)` (a destination that is not an array has no such
-type: the lookup returns nil) -/
+/-- `lookup.GetArray(dest, -1)`.  For a destination that is NOT an array the model
+returns `none` (no destination); the real lookup builds an `ArrayType` with
+dimension −1 (type_lookup.go Get / GetArray; audit pass 2, LOW-2).  Such pairs
+are rejected at compile time, so the run time never asks (harness: histogram
+`path_rejected_pair_differs`). -/
 def peelArrD : Option Ty → Option Ty
   | some (.arr d) => some d
   | _ => none
@@ -162,16 +165,17 @@ namespace Martian.Typing
 open Martian.Json Martian.Types
 
 /-- the hypothesis of the run-time soundness of a binding: C17's `noHole` at
-every reference; for `split REF` at the type of the whole collection (`t[]` /
-`map<t>`), because that is the destination the resolver is given -/
+every reference; for `split REF` between the parameter type and the ELEMENT type
+of the collection (the keys of a typed map that is split over are not delivered,
+so their legality as file names is not needed) -/
 def bindHoleFreeT (Γ : Env) (t : Ty) : Bind → Bool
   | .plain e => holeFree Γ t (bindExp Γ t e)
   | .split (.arr xs) => xs.toList.all (fun x => holeFree Γ t x)
   | .split (.map _ kvs) => kvs.toList.all (fun kv => holeFree Γ t kv.2)
   | .split e =>
     match refType Γ e with
-    | some (.arr s) => noHole (.arr t) (.arr s)
-    | some (.tmap s) => noHole (.tmap t) (.tmap s)
+    | some (.arr s) => noHole t s
+    | some (.tmap s) => noHole t s
     | _ => true
 
 /-- the struct of outputs a pipeline call delivers, as the run time resolves
